@@ -253,3 +253,89 @@ def check_blake2_keyed_shapes(ctx, P, which=("new_keyed", "reset_with_key"), rul
                 done += 1
                 ctx.subsume("keyed-init:%s" % inst, "%s is decided for every key length by shape evaluation (shape-eval)" % inst)
     return done
+
+
+def check_legacy_blake2_keys_shapes(ctx, P, rule="shape-eval"):
+    """legacy blake2b::Blake2b / blake2s::Blake2s objects: new_keyed / reset_with_key for EVERY key length, the wrapped
+    ContextDyn constructor / reset kept as recorded opaque calls: the wrapper keys its context with exactly (outlen, key),
+    retains key || zeros and key.len() for later trait resets, and clears the computed flag"""
+    import re as _re
+    from .. import simd
+    from .arx import Box
+    done = 0
+    for T, mk, inner in (("blake2b::Blake2b", 64, "hashing::blake2b::ContextDyn"), ("blake2s::Blake2s", 32, "hashing::blake2s::ContextDyn")):
+        adt = P.adts.get(T)
+        if adt is None:
+            ctx.lost(rule, T, "type not found")
+            continue
+        fields = [f["name"] for f in adt["variants"][0]["fields"]]
+        fi = {n: i for i, n in enumerate(fields)}
+        if any(k not in fi for k in ("ctx", "computed", "key", "keylen")):
+            ctx.lost(rule, T, "fields changed: %s" % fields)
+            continue
+        for kind in ("new_keyed", "reset_with_key"):
+            fn = P.fn_opt("%s::%s" % (T, kind))
+            inst = "%s::%s" % (T, kind)
+            if fn is None:
+                ctx.lost(rule, inst, "function not found")
+                continue
+            bad = []
+            n = 0
+            for kl in range(mk + 1):
+                B = simd.TermBank()
+                key = [B.inp("k[%d]" % i, 8) for i in range(kl)]
+                M = simd.Machine(P, B, 64, {}, maxsteps=400000)
+                ev = []
+
+                def h_new(m_, f_, c_, a_, ev=ev):
+                    cont, base, k_ = m_.seq(a_[1])
+                    ev.append(("new_keyed", a_[0], tuple(m_.scalar_bits(cont[base + i], 8) for i in range(k_))))
+                    return {"_ctx": 1}
+
+                def h_rk(m_, f_, c_, a_, ev=ev):
+                    cont, base, k_ = m_.seq(a_[1])
+                    ev.append(("reset_with_key", tuple(m_.scalar_bits(cont[base + i], 8) for i in range(k_))))
+                    tgt = a_[0]
+                    while isinstance(tgt, tuple) and tgt and tgt[0] == "lref":
+                        tgt = tgt[1][tgt[2]]
+                    if isinstance(tgt, dict) and "_ctx" in tgt:
+                        tgt["_ctx"] = 1 if tgt["_ctx"] == 0 else -1
+                    return None
+                M.hooks = [(_re.compile(_re.escape(inner) + r"::new_keyed$"), h_new), (_re.compile(_re.escape(inner) + r"::reset_with_key$"), h_rk)]
+                kref = ("aslice", {i: key[i] for i in range(kl)}, 0, kl)
+                try:
+                    if kind == "new_keyed":
+                        st = M.call_fn(fn, [mk // 2, kref])
+                    else:
+                        box = Box({fi["ctx"]: {"_ctx": 0}, fi["computed"]: True, fi["key"]: {i: B.inp("old[%d]" % i, 8) for i in range(mk)}, fi["keylen"]: 7})
+                        M.call_fn(fn, [box.ref(), kref])
+                        st = box.v
+                except (simd.Unsupported, KeyError, IndexError, TypeError, AttributeError, ValueError) as e:
+                    bad.append((kl, "not evaluable: %s: %s" % (type(e).__name__, str(e)[:100])))
+                    break
+                n += 1
+                gk = [M.scalar_bits(st[fi["key"]][i], 8) for i in range(mk)]
+                wk = key + [B.const(0, 8)] * (mk - kl)
+                want_ev = [("new_keyed", mk // 2, tuple(key))] if kind == "new_keyed" else [("reset_with_key", tuple(key))]
+                what = None
+                if ev != want_ev:
+                    what = "the wrapped context is not keyed with exactly the key given (%d calls)" % len(ev)
+                elif not (isinstance(st[fi["ctx"]], dict) and st[fi["ctx"]].get("_ctx") == 1):
+                    what = "the keyed context is not the one the object keeps"
+                elif gk != wk:
+                    what = "the retained key is not key || zeros"
+                elif st[fi["keylen"]] != kl:
+                    what = "keylen = %s" % (st[fi["keylen"]],)
+                elif st[fi["computed"]] not in (False, 0):
+                    what = "the computed flag is not cleared"
+                if what:
+                    bad.append((kl, what))
+                    if len(bad) > 2:
+                        break
+            ok = not bad and n == mk + 1
+            ctx.check(ok, rule, inst, "key lengths 0..%d: context keyed with (outlen, key), key || zeros and its length retained, computed cleared" % mk,
+                      "%s does not key its context and retain the key: (key length, what) %s" % (inst, bad[:3]), where=fn.where(), key="%s:%s" % (rule, inst))
+            if ok:
+                done += 1
+                ctx.subsume("rekey:%s:retains-key" % inst, "%s is decided for every key length by shape evaluation (shape-eval)" % inst)
+    return done
